@@ -5,9 +5,10 @@ CONSTANTS
   Namespace = {1, 2}
   M = 2
   MaxTs = 2
-  Classes = {"ok", "needs", "badSig", "rejectLater"}
+  Classes = {"ok", "badSig", "rejectLater"}
   MaxBad = 2
   Emit = FALSE
+  EmitMod = 1
 INIT InitGet
 NEXT NextGet
 INVARIANTS LoadIsClosure C05_GetIsFunctionOfClosure WalkNoTrace
